@@ -14,6 +14,7 @@ Configuration: SIM.cfg["stream"] = {
 }
 """
 
+import os
 import random
 import types
 
@@ -21,13 +22,17 @@ import pysam as REAL_PYSAM
 
 from .seams import SIM
 
-_state = {"opens": 0, "in_indelpost": False}
+_state = {"opens": 0, "in_indelpost": False, "per_file": {}}
 
 
 class SimAlignmentFile(REAL_PYSAM.AlignmentFile):
     def __init__(self, *a, **k):
         _state["opens"] += 1
-        self._sim_open = _state["opens"]
+        fn = self.filename
+        fn = os.path.basename(fn.decode() if isinstance(fn, bytes) else str(fn))
+        # n-th time this file is opened (1 = detect_genome, 2 = read loading, 3 = neutral region)
+        _state["per_file"][fn] = _state["per_file"].get(fn, 0) + 1
+        self._sim_open = _state["per_file"][fn]
 
     def _cfg(self):
         if _state["in_indelpost"]:
@@ -131,3 +136,4 @@ def install_stream_seam():
 def reset():
     _state["opens"] = 0
     _state["in_indelpost"] = False
+    _state["per_file"] = {}
